@@ -385,6 +385,20 @@ also('C18', 'the literal four-qubit UPB is pairwise orthogonal by its (basis, in
             'factor also when written as an einsum (HM6).')
 also('C20', 'allclose / isclose with atol never keep the default rtol (AC1: the structure-class dispatch uses the stated absolute tolerance).')
 
+# ---- clauses added with the round-6 rules
+also('C02', 'no manifold module dispatches real / complex on equality with one complex dtype (DTYPE1); an option accepted by a wrapper class is forwarded to the class it '
+            'constructs (FW1 over constructors: euler_with_phase).')
+also('C03', 'Circuit.num_qubit reads both index slots of a control gate (H7B).')
+also('C05', 'the unshifted PSD pre-check of is_ABk_symmetric_ext counts as a decision comparison (T1); a matricisation row size never depends on the bipartition only through '
+            'its length (RS1); x*log(x) written with log1p is guarded like the log form (F1).')
+also('C08', 'no identity-gated shortcut in PauliOperator.__matmul__ (E4B); no order=K flattening in the Pauli conversions (RO1); no persistent memo keyed by id() (ID2).')
+also('C12', 'a difference of states is never symmetrised with its bare transpose (HM5 over numqi.utils); the Gell-Mann conversions have a single formulation - a literal-'
+            'dimension fast path stops the check with exit 2 (SG1).')
+also('C13', 'the partial transpose is never symmetrised with its bare transpose (HM5); a tolerance-gated second formulation of a closed-form measure stops the check with exit 2 (SG1).')
+also('C14', 'the hook-branch bounds of the tableau recursion come from the transposed diagram (GR7).')
+also('C18', 'list items are never all cast to the dtype of the first item (DT12); no public constructor returns a view of a module-level array (O6).')
+also('C20', 'a value read from a memo dict is never updated in place (LM2).')
+
 for _p in sorted(CLAIMS):
     also(_p, 'no function outside the reviewed set of 24 memoised functions is decorated with lru_cache / cache (or keeps a module-level memo) while returning an unfrozen '
              'NumPy / torch object (MC3: no new shared mutable result in the modules of this property; package-wide in the thorough tier); no function of those modules writes in place into (a view of) an '
